@@ -117,6 +117,9 @@ def bombs(ctx, res):
                 SP.closed_form_case(eng, res, sc, sc.enum_random([len(sc.objects) - 1], rng0, style=style), exp,
                                     "bomb of fan-out %d x %d (%s)" % (breadth, breadth, style))
         SP.wide_cases(eng, res, S.HIST_KEYS, "saturation", True, rng0)
+        # a saturated report (infinity sign, highest level of concern) is the same bytes under every locale / terminal
+        sb = bomb(10, 10, 6)
+        SP.env_invariance(eng, res, sb, sb.enum_gitlike([len(sb.objects) - 1]), "saturated git bomb 10^10")
         # sums of already-sized sub-trees that land on / next to the 32-bit cap, followed by direct entries,
         # under three legal enumeration orders (git-like, children before parents, parents before children)
         rng = random.Random(ctx["seed"] + 5)
